@@ -2,6 +2,7 @@ package engine
 
 import (
 	"io"
+	"math"
 	"strconv"
 	"strings"
 )
@@ -14,7 +15,7 @@ func (f Float) number() {}
 // WriteTerm outputs the Float to an io.Writer.
 func (f Float) WriteTerm(w io.Writer, opts *WriteOptions, _ *Env) error {
 	ew := errWriter{w: w}
-	openClose := opts.left.name == atomMinus && opts.left.specifier.class() == operatorClassPrefix && f > 0
+	openClose := opts.left.name == atomMinus && opts.left.specifier.class() == operatorClassPrefix && !math.Signbit(float64(f))
 
 	if openClose || (f < 0 && opts.left != operator{}) {
 		_, _ = ew.Write([]byte(" "))
